@@ -76,7 +76,8 @@ def _goals(case, out):
     n, k, api, roots, nodes, d0, trace = f[0], f[1], f[2], f[3], f[4], f[5], f[6]
     api, _, bits = api.partition("/")
     bits = bits or "11111"
-    mount = api.endswith("m")
+    mount = "m" in api[1:]
+    cachedroot = "c" in api[1:]
     api = api[0]
     cmode = {"g": "MGraph", "x": "MGraph", "t": "MTagger", "r": "MRefPush"}[api]
     specs = nodes.split(";")
@@ -105,7 +106,8 @@ def _goals(case, out):
 
     def goal(nn, succs, fl, ism, dk, root, xroots, ext):
         g = "(mkG %d [%s] [%s] [%s] [%s])" % (nn, "; ".join(succs), "; ".join(fl), "; ".join(ism), "; ".join(dk))
-        c = "(mkCfg (eff_K defaultConcurrency (%s)%%Z) %s %s %s true [] %s)" % (k, cmode, root, _b(mount), _nats(",".join(xroots)))
+        c = "(mkCfg (eff_K defaultConcurrency (%s)%%Z) %s %s %s true %s %s)" % (
+            k, cmode, root, _b(mount), "[%s]" % root if cachedroot else "[]", _nats(",".join(xroots)))
         cs = "(cs_of [%s])" % "; ".join(_b(ch == "1") for ch in bits)
         return "eval %s %s %s %s %s [%s] %s = %s" % (cs, g, c, _b(ext), _nats(d0), "; ".join(evs), n, exp)
     if api == "x":
